@@ -23,12 +23,12 @@ import (
 
 // WProg: one program against a stack of wrappers over a MemDB-backed parent.
 type WProg struct {
-	Prefix   B                 `json:"prefix"`
-	Parent   map[B]string      `json:"parent"`  // full parent keys (inside and outside the prefix)
-	Stack    []string          `json:"stack"`   // outermost first, e.g. ["gas","trace","prefix"]; "cache" allowed below gas/trace
-	Limit    uint64            `json:"limit"`   // gas limit (0 = infinite meter)
-	Preload  uint64            `json:"preload"` // gas consumed before the program starts
-	Ops      []COp             `json:"ops"`
+	Prefix  B            `json:"prefix"`
+	Parent  map[B]string `json:"parent"`  // full parent keys (inside and outside the prefix)
+	Stack   []string     `json:"stack"`   // outermost first, e.g. ["gas","trace","prefix"]; "cache" allowed below gas/trace
+	Limit   uint64       `json:"limit"`   // gas limit (0 = infinite meter)
+	Preload uint64       `json:"preload"` // gas consumed before the program starts
+	Ops     []COp        `json:"ops"`
 }
 
 var wPrefixes = []string{"", "\x00", "\x01", "a/", "\xff", "\xff\xff", "\x01\xff", "ab"}
